@@ -233,7 +233,11 @@ func c15RunRound(t *testing.T, r *kit.Rand, rd c15Round, rep *kit.Report, pw *c1
 	names := []string{}
 	for i := 0; i < rd.Models; i++ {
 		n := fmt.Sprintf("m%d", i)
-		st, body, err := c15Do(hc, "POST", ts.URL+"/api/create", map[string]any{"model": n, "files": map[string]string{"m.gguf": digests[i%3]}, "template": "{{ .Prompt }}", "stream": false})
+		creq := map[string]any{"model": n, "files": map[string]string{"m.gguf": digests[i%3]}, "stream": false}
+		if i%2 == 0 {
+			creq["template"] = "{{ .Prompt }}"
+		} // odd models have no template layer: every request shares the package-level default template
+		st, body, err := c15Do(hc, "POST", ts.URL+"/api/create", creq)
 		if err != nil || st != 200 {
 			return nil, fmt.Sprintf("setup create: %v %d %s", err, st, body)
 		}
